@@ -1281,6 +1281,13 @@ func (ev *Env) builtinSpec(name string, argEs []Expr) (T, bool) {
 		}
 		vc.decl("iptr", "(declare-fun iptr (Int Int) Int)")
 		vc.regHeap("G_held", ghostSorts["G_held"])
+		if fv, isVar := obj.(*types.Var); isVar {
+			if _, isPtr := unalias(fv.Type()).Underlying().(*types.Pointer); isPtr {
+				// the field holds a *sync.Mutex: the lock is identified by that pointer
+				mv := ev.fieldOf(base, sel.Name)
+				return T{fmt.Sprintf("(select %s %s)", vc.heapGet(ev.st, "G_held"), mv.S), "Bool", boolT}, true
+			}
+		}
 		return T{fmt.Sprintf("(select %s (iptr %s %d))", vc.heapGet(ev.st, "G_held"), base.S, index[0]), "Bool", boolT}, true
 	case "deref":
 		// deref(p): the value p points to
